@@ -99,14 +99,13 @@ fn one_target<T: Elem>(ctx: &mut Ctx, t: Target<T>) {
     let pack = pack_len(&t);
     let lens: Vec<usize> = match (t.r.dims, tier) {
         (Some(d), _) => vec![d],
-        (None, Tier::Quick) => vals::smart_lengths(t.lane, &[]),
-        (None, Tier::Thorough) => (0..=vals::max_len(t.lane)).collect(),
+        (None, _) => (0..=vals::max_len(t.lane)).collect(),
     };
     let mut rng = ctx.rng.split();
     let mut run = Run::new(ctx, t, pack);
     let op = t.r.op;
 
-    let reps = tier.pick(1, 3);
+    let reps = tier.pick(1, 16);
     for &len in &lens {
         for class in 0..6u64 {
             for _ in 0..reps {
@@ -118,7 +117,7 @@ fn one_target<T: Elem>(ctx: &mut Ctx, t: Target<T>) {
     }
     if pack > 0 {
         // one-hot at every index: the result is that single term rounded once
-        let nvals = tier.pick(1, 4);
+        let nvals = tier.pick(1, 8);
         let (lo, hi) = erange::<T>();
         for k in 0..pack {
             if k % 64 == 0 && run.ctx.out_of_time() {
@@ -146,9 +145,9 @@ fn one_target<T: Elem>(ctx: &mut Ctx, t: Target<T>) {
         }
         run.tally.add("class:one_hot_sweeps", 1);
         let n = match (tier, t.r.safe) {
-            (Tier::Quick, _) => 60,
-            (Tier::Thorough, true) => 1200,
-            (Tier::Thorough, false) => 6000,
+            (Tier::Quick, _) => 240,
+            (Tier::Thorough, true) => 6000,
+            (Tier::Thorough, false) => 42000,
         };
         for i in 0..n {
             if i % 64 == 0 && run.ctx.out_of_time() {
